@@ -62,16 +62,15 @@ Qed.
 
 Lemma classify_lemma :
   (forall cs e, read_all None cs = Some e ->
-     (is_eof e = true \/ is_mal e = true) \/ source_failed_with (map fst cs) e) /\
+     (eof_ident e = true \/ is_mal e = true) \/ source_failed_with (map fst cs) e) /\
   (forall evs e x, construct evs e = Some x ->
-     is_mal x = true \/ (In (Some x) evs /\ is_eof x = false)).
+     is_mal x = true \/ (In (Some x) evs /\ eof_ident x = false)).
 Proof.
-  exact (conj (fun cs e H => match read_all_classified cs None e H with
-                             | or_introl a => or_introl a
-                             | or_intror (or_introl b) => match (eq_ind None (fun o => match o with None => True | Some _ => False end) I _ b) with end
-                             | or_intror (or_intror c) => or_intror c
-                             end)
-              construct_classified).
+  split; [|exact construct_classified].
+  intros cs e H. destruct (read_all_classified cs None e H) as [a | [b | c]].
+  - left. exact a.
+  - discriminate b.
+  - right. exact c.
 Qed.
 
 
